@@ -1,9 +1,11 @@
 """C11 -- constrained CP returns factors satisfying every requested hard constraint; double constraints are rejected.
 
-Correspondence (exact): (a) the (constraint, parameter) table of Model/Constraints.v vs
+Correspondence (exact): (a) the (constraint, parameter) table of Model/Constraints.v (dict keys are Python ints) vs
 tensorly.tenalg.proximal.validate_constraints over an enumerated specification space; (b) the loop skeleton of
 constrained_parafac executed in Coq on provenance tags vs the provenance of the factors really returned (which recorded
-proximal_operator call produced the returned array).
+proximal_operator call produced the returned array); (c) the same for tensorly.solvers.admm.admm called on its own;
+(d) the dispatch of proximal_operator: which operator's output the returned array is (identified by value against the
+operator functions called directly).
 Predicates (on the implementation's outputs only): table entry = what was requested / error iff two keywords hit one mode
 (transcriptions of C11_table_iff_requested, C11_reject_iff_double); column-wise feasibility of the RETURNED factors of
 constrained_parafac / ConstrainedCP for the eight hard constraint kinds."""
@@ -53,12 +55,12 @@ def pv(p):
 
 def spec_lit(s):
     if s is None:
-        return "SNone"
+        return "ZNone"
     if isinstance(s, dict):
-        return "(SDict [" + "; ".join(f"({C.nat(m)}, {pv(p)})" for m, p in s.items()) + "])"
+        return "(ZDict [" + "; ".join(f"({C.z(m)}, {pv(p)})" for m, p in s.items()) + "])"
     if isinstance(s, list):
-        return "(SList [" + "; ".join("None" if e is None else f"Some {pv(e)}" for e in s) + "])"
-    return f"(SScalar {pv(s)})"
+        return "(ZList [" + "; ".join("None" if e is None else f"Some {pv(e)}" for e in s) + "])"
+    return f"(ZScalar {pv(s)})"
 
 
 def specs_lit(spec):
@@ -99,33 +101,69 @@ def same_value(a, b):
 
 
 # ----------------------------------------------------------------------------- statement transcriptions (Python side)
-def requested(n, s, m):
-    """`requested truthy n s m p` of Proofs/ConstraintsProofs.v: returns (True, p) or (False, None)"""
+def addressed(n, key):
+    """`addresses n key m` of Proofs/ConstraintsProofsKeys.v: the mode a dict key names (Python indexing); None = no mode"""
+    if key >= 0:
+        return key
+    return key + n if key + n >= 0 else None
+
+
+def requested_all(n, s, m):
+    """all p with `zrequested truthy n s m p`"""
     if s is None:
-        return False, None
+        return []
     if isinstance(s, dict):
-        return (True, s[m]) if m in s else (False, None)
+        return [p for key, p in s.items() if addressed(n, key) == m]
     if isinstance(s, list):
-        return (True, s[m]) if m < len(s) and s[m] else (False, None)
-    return (True, s) if (s and m < n) else (False, None)
+        return [s[m]] if m < len(s) and s[m] else []
+    return [s] if (s and m < n) else []
+
+
+def requested(n, s, m):
+    """returns (True, p) or (False, None)"""
+    ps = requested_all(n, s, m)
+    return (True, ps[0]) if ps else (False, None)
 
 
 def expected_table(n, spec):
-    """None = must be rejected (two keywords on one mode / a non-existing mode), else the table demanded by the theorem"""
+    """None = must be rejected (two keywords on one mode / a non-existing mode), else the table demanded by the theorem;
+    an entry AMBIGUOUS where one dict names a mode twice (e.g. {2: a, -1: b}, order 3): the statement demands nothing there"""
     modes = set(range(n))
     for s in spec.values():
         if isinstance(s, dict):
-            modes |= set(s)
+            for key in s:
+                if addressed(n, key) is None:
+                    return None          # a key below -n: no such mode (IndexError in the code)
+                modes.add(addressed(n, key))
         elif isinstance(s, list):
             modes |= set(range(len(s)))
     tab = [None] * n
     for m in sorted(modes):
-        hit = [(k, requested(n, spec.get(k), m)[1]) for k in KINDS if requested(n, spec.get(k), m)[0]]
-        if len(hit) > 1 or (hit and m >= n):
+        hit = [(k, p) for k in KINDS for p in requested_all(n, spec.get(k), m)]
+        if len({k for k, _ in hit}) > 1 or (hit and m >= n):
             return None
-        if hit:
+        if len(hit) > 1:
+            tab[m] = AMBIGUOUS
+        elif hit:
             tab[m] = hit[0]
     return tab
+
+
+AMBIGUOUS = ("?", None)
+
+
+def alias_by_negative_key(n, spec):
+    """the known-finding class: some dict has a negative key whose mode (Python wrap-around) is also addressed by ANOTHER
+    keyword (the scan compares the raw keys and does not see it)"""
+    for k, s in spec.items():
+        if isinstance(s, dict):
+            for key in s:
+                if key < 0 and addressed(n, key) is not None:
+                    m = addressed(n, key)
+                    if any(k2 != k and requested_all(n, s2, m) for k2, s2 in spec.items()):
+                        return True
+    # ... or the other way round: the negative key belongs to the other keyword
+    return False
 
 
 def impl_table(n, spec):
@@ -135,7 +173,7 @@ def impl_table(n, spec):
     for m in range(n):
         st, v = C.call_impl(validate_constraints, n_const=n, order=m, **spec)
         if st != "ok":
-            return st, v
+            return ("timeout" if v == "timeout" else st), v
         c, p = v
         tab.append(None if c is None else (c, p))
     return "ok", tab
@@ -163,9 +201,13 @@ def table_predicate(n, spec, st, tab):
             return "C11_reject_iff_double", f"two constraints on one mode (or a non-existing mode) accepted; table {tab}"
         return None
     if st != "ok":
+        if any(e is AMBIGUOUS for e in exp):
+            return None      # one dict names a mode twice: accepting (later entry wins) and rejecting are both within the statement
         return "C11_reject_iff_double", f"valid request rejected: {tab}"
     for m in range(n):
         e, g = exp[m], tab[m]
+        if e is AMBIGUOUS:
+            continue
         if (e is None) != (g is None) or (e is not None and (e[0] != g[0] or not same_value(e[1], g[1]))):
             return "C11_table_iff_requested", f"mode {m}: validated {g}, requested {e}"
     return None
@@ -332,6 +374,12 @@ def checked_modes(cfg):
     return out
 
 
+def degenerate_message(msg):
+    """a raised run that is outside the property: singular Gram matrix / non-converging SVD / the harness' per-case timeout"""
+    msg = str(msg)
+    return "LinAlgError" in msg or "SVD did not converge" in msg or msg == "timeout"
+
+
 def run_predicates(cfg, res):
     """list of (predicate name, message) failing on this run"""
     n = len(cfg["shape"])
@@ -342,11 +390,13 @@ def run_predicates(cfg, res):
         if res["status"] == "ok":
             fails.append(("C11_decomposition_rejects_double", "a request with two constraints on one mode was not rejected"))
         return fails, 0
+    if any(e is AMBIGUOUS for e in exp):
+        return fails, 0
     if res["status"] in ("skip",):
         return fails, 0
     if res["status"] != "ok":
-        if "LinAlgError" in str(res["message"]) or "SVD did not converge" in str(res["message"]):
-            return fails, 0  # degenerate problem (singular Gram matrix), outside the property
+        if degenerate_message(res["message"]):
+            return fails, 0  # degenerate problem (singular Gram matrix) or timeout on a loaded machine, outside the property
         fails.append(("C11_valid_request_returns", f"valid request raised: {res['message']}"))
         return fails, 0
     nchk = 0
@@ -373,7 +423,7 @@ def prov_lit(cfg, res):
     if res["status"] == "skip":
         return None
     if res["status"] != "ok":
-        if "LinAlgError" in str(res["message"]) or "SVD did not converge" in str(res["message"]):
+        if degenerate_message(res["message"]):
             return None
         return "Err"
     out = []
@@ -396,6 +446,130 @@ def prov_lit(cfg, res):
         else:
             out.append("PvOther")
     return "(Ok [" + "; ".join(out) + "])"
+
+
+# ----------------------------------------------------------------------------- admm on its own / dispatch of proximal_operator
+def tag_lit(c, p):
+    if c is None:
+        return "PvRaw"
+    if c in KINDS and p is not None:
+        try:
+            return f"PvOp {KCOQ[KINDS.index(c)]} {pv(p)}"
+        except TypeError:
+            return "PvOther"
+    return "PvOther"
+
+
+def run_admm(cfg, rec):
+    """tensorly.solvers.admm.admm with n_const = n, order; returns (Gallina `res prov` | None, predicate failures, judged?)"""
+    from tensorly.solvers.admm import admm
+    rs = np.random.RandomState(cfg["seed"])
+    r, rows, n, order = cfg["rank"], cfg["rows"], cfg["n"], cfg["order"]
+    A = rs.randn(r + 3, r)
+    UtU = A.T @ A + 0.5 * np.eye(r)
+    x0 = rs.randn(rows, r)
+    UtM = rs.randn(rows, r) * cfg.get("scale", 1.0)
+    dual = np.zeros((rows, r)) if cfg.get("zero_dual", True) else 0.1 * rs.randn(rows, r)
+    spec = spec_from_json(cfg["spec"])
+    with rec:
+        st, v = C.call_impl(admm, UtM, UtU, x0, dual, n_iter_max=cfg["n_iter"], n_const=n, order=order, tol=cfg.get("tol", 1e-6), **spec)
+    calls = list(rec.calls)
+    exp = expected_table(n, spec)
+    fails = []
+    if st != "ok":
+        if degenerate_message(v):
+            return None, fails, False
+        if exp is not None and not any(e is AMBIGUOUS for e in exp):
+            fails.append(("C11_valid_request_returns", f"admm raised on a valid request: {v}"))
+        return "Err", fails, False
+    if exp is None:
+        fails.append(("C11_reject_iff_double", "admm accepted a request with two constraints on one mode"))
+    x = np.asarray(v[0])
+    if calls and calls[-1][3].shape == x.shape and np.array_equal(calls[-1][3], x, equal_nan=True):
+        lit = "(Ok (" + tag_lit(calls[-1][1], calls[-1][2]) + "))"
+    elif x.shape == x0.shape and np.array_equal(x, x0):
+        lit = "(Ok (PvUser 0%nat))"
+    else:
+        lit = "(Ok PvOther)"
+    judged = False
+    if exp is not None and exp[order] is not None and exp[order] is not AMBIGUOUS and exp[order][0] in HARD:
+        k, p = exp[order]
+        msg = feasible(k, p, x)
+        if msg != "degenerate":
+            judged = True
+            if msg:
+                fails.append(("C11_feasible_" + k, f"admm(order={order}, {k}={p!r}) returned an infeasible primal variable: {msg}"))
+    return lit, fails, judged
+
+
+def direct_operators():
+    import tensorly.tenalg.proximal as PX
+    return {"non_negative": lambda t, p: np.clip(t, 0, None), "l1_reg": PX.soft_thresholding, "l2_reg": PX.l2_prox,
+            "l2_square_reg": PX.l2_square_prox, "unimodality": lambda t, p: PX.unimodality_prox(t),
+            "normalize": lambda t, p: t / np.max(np.abs(t)), "simplex": PX.simplex_prox,
+            "normalized_sparsity": PX.normalized_sparsity_prox, "soft_sparsity": PX.soft_sparsity_prox,
+            "smoothness": PX.smoothness_prox, "monotonicity": lambda t, p: PX.monotonicity_prox(t),
+            "hard_sparsity": PX.hard_thresholding}
+
+
+def same_array(a, b):
+    a, b = np.asarray(a), np.asarray(b)
+    return a.shape == b.shape and bool(np.allclose(a, b, rtol=1e-12, atol=1e-14, equal_nan=True))
+
+
+def run_prox(cfg):
+    """proximal_operator(tensor, n_const=n, order=order, **spec): which operator's output is returned, identified BY VALUE
+    against the operator functions called directly with every parameter the request mentions for that keyword"""
+    from tensorly.tenalg.proximal import proximal_operator
+    rs = np.random.RandomState(cfg["seed"])
+    T = rs.randn(cfg["rows"], cfg["rank"]) * cfg.get("scale", 1.0)
+    n, order = cfg["n"], cfg["order"]
+    spec = spec_from_json(cfg["spec"])
+    st, out = C.call_impl(proximal_operator, np.array(T, copy=True), n_const=n, order=order, **spec)
+    exp = expected_table(n, spec)
+    fails = []
+    if st != "ok":
+        if degenerate_message(out):
+            return None, fails
+        if exp is not None and not any(e is AMBIGUOUS for e in exp):
+            fails.append(("C11_valid_request_returns", f"proximal_operator raised on a valid request: {out}"))
+        return "Err", fails
+    if exp is None:
+        fails.append(("C11_reject_iff_double", "proximal_operator accepted a request with two constraints on one mode"))
+    ops = direct_operators()
+    cands = []
+    for k in KINDS:
+        sk = spec.get(k)
+        if sk is None:
+            continue
+        ps = list(sk.values()) if isinstance(sk, dict) else [e for e in sk if e is not None] if isinstance(sk, list) else [sk]
+        for p_ in ps:
+            if not any(k == k2 and same_value(p_, p2) for k2, p2 in cands):
+                cands.append((k, p_))
+    matches = []
+    for k, p_ in cands:
+        stc, ref = C.call_impl(ops[k], np.array(T, copy=True), p_)
+        if stc == "ok" and same_array(out, ref):
+            matches.append((k, p_))
+    ident = same_array(out, T)
+    e = exp[order] if exp is not None else None
+    if e is AMBIGUOUS:
+        return None, fails
+    if e is not None and any(e[0] == k and same_value(e[1], p_) for k, p_ in matches):
+        lit = tag_lit(*e)
+    elif e is None and ident:
+        lit = "PvRaw"
+    elif matches:
+        lit = tag_lit(*matches[0])
+    elif ident:
+        lit = "PvRaw"
+    else:
+        lit = "PvOther"
+    if exp is not None:
+        want = "PvRaw" if e is None else tag_lit(*e)
+        if lit != want:
+            fails.append(("C11_dispatch", f"proximal_operator(order={order}): the output is {lit} (identified by value), the request asks for {want}"))
+    return "(Ok (" + lit + "))", fails
 
 
 # ----------------------------------------------------------------------------- generators
@@ -445,8 +619,33 @@ def gen_table_cases(tier, rng):
             yield n, {k: {0: t, n + 1: t}}, "single"
             yield n, {k: {n - 1: f}}, "single"                # a falsy value in a dict still constrains the mode
             yield n, {k: {1: f, 0: t}}, "single"
+    # dict keys that are negative Python ints (wrap-around): alone / disjoint (valid), below -n (IndexError), twice in one dict
+    for n in (3, 4):
+        for k in KINDS:
+            t, f = TRUTHY[k], FALSY[k]
+            yield n, {k: {-1: t}}, "negkey"
+            yield n, {k: {-n: t, 1: t}}, "negkey"
+            yield n, {k: {-n - 1: t}}, "negkey"
+            yield n, {k: {0: t, -n - 2: t}}, "negkey"
+            yield n, {k: {n - 1: t, -1: f}}, "negkey"          # one dict names the last mode twice: the later entry wins
+            yield n, {k: {-2: f, n - 2: t}}, "negkey"
     forms = ["scalar", "list", "dict"]
     pairs = list(itertools.combinations(KINDS, 2))
+    for n in (3, 4):
+        for (k1, k2) in pairs:
+            if rng.random() < 0.5:
+                k1, k2 = k2, k1
+            m = rng.randrange(n)
+            m2 = (m + 1 + rng.randrange(n - 1)) % n
+            t1, t2 = TRUTHY[k1], TRUTHY[k2]
+            yield n, {k1: {m: t1}, k2: {m2 - n: t2}}, "negkey"                                   # disjoint: valid
+            yield n, {k1: {m - n: t1}, k2: form_spec(k2, rng.choice(["list", "dict"]), (m2,), n, t2)}, "negkey"
+            # the known-finding class: the negative key names a mode another keyword addresses
+            yield n, {k1: {m: t1}, k2: {m - n: t2}}, "alias"
+            yield n, {k1: {m - n: t1}, k2: form_spec(k2, rng.choice(["list", "dict", "scalar"]), (m,), n, t2)}, "alias"
+            if tier != "quick":
+                yield n, {k1: {m - n: t1, m2: t1}, k2: {m - n: t2}}, "negkey"                    # same raw key twice: seen by the scan
+                yield n, {k1: {m - n: t1}, k2: {m2 - n: t2, m: t2}}, "alias"
     for n, per in ((3, 4 if tier == "quick" else 64), (4, 1 if tier == "quick" else 8)):
         allsub = list(subsets(n))
         allpairs = list(itertools.product(allsub, allsub))
@@ -513,6 +712,8 @@ def gen_run_cfgs(tier, rng):
             S = tuple(sorted(modes[i::nk]))
             if S:
                 spec[k] = form_spec(k, rng.choice(["list", "dict"]), S, n, rng.choice(RUN_PARAMS[k]))
+                if isinstance(spec[k], dict) and rng.random() < 0.3:
+                    spec[k] = {(m - n if rng.random() < 0.6 else m): p for m, p in spec[k].items()}   # negative keys, no aliasing
         cfg.update(n_outer=rng.choice([0, 1, 1, 3]), n_inner=rng.choice([1, 3]),
                    init=rng.choice(["svd", "random", "user", "user_feasible"]), spec=spec_to_json(spec))
         if rng.random() < 0.35:
@@ -530,6 +731,79 @@ def gen_run_cfgs(tier, rng):
         spec = {k1: form_spec(k1, f1, S1, n, RUN_PARAMS[k1][0]), k2: form_spec(k2, f2, S2, n, RUN_PARAMS[k2][0])}
         cfg.update(n_outer=rng.choice([0, 1]), n_inner=1, init=rng.choice(["svd", "random", "user"]), spec=spec_to_json(spec))
         yield cfg, "double"
+    # every keyword once in a double constraint with a user initialisation and outer budget 0 (nothing but the first
+    # validation of constrained_parafac can reject these) and once with a computed initialisation
+    for k1 in KINDS:
+        for init, n_outer in (("user", 0), ("svd", 0), ("user_w1", 1)):
+            cfg = base()
+            n = len(cfg["shape"])
+            k2 = rng.choice([k for k in KINDS if k != k1])
+            m = rng.randrange(n)
+            f1, f2 = rng.choice(["list", "dict"]), rng.choice(["list", "dict"])
+            spec = {k1: form_spec(k1, f1, (m,), n, RUN_PARAMS[k1][0]), k2: form_spec(k2, f2, (m,), n, RUN_PARAMS[k2][0])}
+            cfg.update(n_outer=n_outer, n_inner=1, init=init, spec=spec_to_json(spec))
+            yield cfg, "double"
+    # the known-finding class through the decomposition: a negative key names a mode another keyword addresses
+    for _ in range(6 * mult):
+        cfg = base()
+        n = len(cfg["shape"])
+        k1 = rng.choice(HARD)
+        k2 = rng.choice([k for k in KINDS if k != k1])
+        m = rng.randrange(n)
+        spec = {k1: {m: RUN_PARAMS[k1][0]}, k2: {m - n: RUN_PARAMS[k2][0]}}
+        cfg.update(n_outer=rng.choice([0, 1]), n_inner=1, init=rng.choice(["svd", "random"]), spec=spec_to_json(spec), via_class=False)
+        yield cfg, "alias"
+
+
+def gen_small_cfgs(tier, rng):
+    """configurations for admm on its own and for the dispatch of proximal_operator: (cfg, stream)"""
+    mult = 1 if tier == "quick" else 6
+
+    def one_spec(n, m):
+        """a request that is valid for n modes and constrains mode m with kind k (other modes: maybe other kinds)"""
+        k = rng.choice(KINDS)
+        p = rng.choice(RUN_PARAMS[k])
+        form = rng.choice(["scalar", "list", "dict", "dict"])
+        S = tuple(range(n)) if form == "scalar" else tuple(sorted(set(rng.sample(range(n), rng.randint(0, n - 1))) | {m}))
+        spec = {k: form_spec(k, form, S, n, p)}
+        if isinstance(spec[k], dict) and rng.random() < 0.25:
+            spec[k] = {(q - n if rng.random() < 0.5 else q): v for q, v in spec[k].items()}
+        rest = [q for q in range(n) if q not in S]
+        if rest and rng.random() < 0.7:
+            k2 = rng.choice([x for x in KINDS if x != k])
+            S2 = tuple(sorted(rng.sample(rest, rng.randint(1, len(rest)))))
+            spec[k2] = form_spec(k2, rng.choice(["list", "dict"]), S2, n, rng.choice(RUN_PARAMS[k2]))
+        return spec
+
+    for _ in range(140 * mult):
+        n = rng.choice([1, 3, 3, 4])
+        order = rng.randrange(n)
+        target = order if rng.random() < 0.7 else rng.randrange(n)      # the constrained mode is not always the one asked for
+        spec = one_spec(n, target)
+        if rng.random() < 0.1:                                           # a double constraint: must be rejected here too
+            k2 = rng.choice([x for x in KINDS if x not in spec])
+            spec[k2] = form_spec(k2, rng.choice(["scalar", "dict"]), (target,), n, RUN_PARAMS[k2][0])
+        yield dict(kind="admm", n=n, order=order, rank=rng.choice([1, 2, 3]), rows=rng.randint(3, 6), n_iter=rng.choice([1, 1, 2, 4]),
+                   seed=rng.randrange(1 << 30), scale=rng.choice([1.0, 1.0, 1e-2, 50.0]), zero_dual=rng.random() < 0.6,
+                   tol=rng.choice([1e-6, 1e-6, 0.5, 0]), spec=spec_to_json(spec)), "admm"
+    for _ in range(260 * mult):
+        n = rng.choice([1, 3, 3, 4])
+        order = rng.randrange(n)
+        target = order if rng.random() < 0.75 else rng.randrange(n)
+        spec = one_spec(n, target)
+        if rng.random() < 0.08:
+            k2 = rng.choice([x for x in KINDS if x not in spec])
+            spec[k2] = form_spec(k2, rng.choice(["scalar", "dict"]), (target,), n, RUN_PARAMS[k2][0])
+        yield dict(kind="prox", n=n, order=order, rank=rng.choice([1, 2, 3]), rows=rng.randint(4, 7), seed=rng.randrange(1 << 30),
+                   scale=rng.choice([1.0, 1.0, 1e-2, 30.0]), spec=spec_to_json(spec)), "prox"
+    # every keyword once per form, on the mode asked for (systematic part of the dispatch stream)
+    for k in KINDS:
+        for form in ("scalar", "list", "dict"):
+            for p in RUN_PARAMS[k][:2]:
+                n = rng.choice([3, 4])
+                order = rng.randrange(n)
+                yield dict(kind="prox", n=n, order=order, rank=rng.choice([2, 3]), rows=rng.randint(5, 7), seed=rng.randrange(1 << 30),
+                           spec=spec_to_json({k: form_spec(k, form, tuple(range(n)) if form == "scalar" else (order,), n, p)})), "prox"
 
 
 def load_corpus():
@@ -553,9 +827,12 @@ def run(chk):
     ctabs, cruns = load_corpus()
 
     # (a) decision logic
-    n_tab = 0
+    n_tab = n_timeout = 0
     for (n, spec, tag) in itertools.chain(ctabs, gen_table_cases(tier, rng)):
         st, tab = impl_table(n, spec)
+        if st == "timeout":
+            n_timeout += 1
+            continue
         lit = table_lit(st, tab)
         cid = len(cases)
         if lit is not None:
@@ -608,6 +885,35 @@ def run(chk):
                 meta.append(("trace", cfg, lit))
                 n_trace += 1
 
+    # (c) admm on its own, (d) dispatch of proximal_operator
+    n_admm = n_prox = 0
+    for (cfg, tag) in gen_small_cfgs(tier, rng):
+        spec = spec_from_json(cfg["spec"])
+        if cfg["kind"] == "admm":
+            if not rec.observable:
+                continue
+            lit, fails, judged = run_admm(cfg, rec)
+            ep = "tensorly.solvers.admm.admm"
+            n_admm += 1
+            n_feas += bool(judged)
+        else:
+            lit, fails = run_prox(cfg)
+            judged = True
+            ep = "tensorly.tenalg.proximal.proximal_operator"
+            n_prox += 1
+        chk.count(key=(cfg["kind"], tuple(sorted(spec)), tuple(type(x).__name__ for x in spec.values()), cfg["n"], cfg["order"], cfg["rank"],
+                       cfg.get("n_iter")), nontrivial=lit is not None)
+        chk.hist("small_stream", tag)
+        for (pred, msg) in fails:
+            chk.finding(ep, cfg, msg, pred)
+        if lit is not None:
+            cid = len(cases)
+            if cfg["kind"] == "admm":
+                cases.append(f"CAdmm {idlit(cid)} {cfg['n']}%nat {specs_lit(spec)} {cfg['order']}%nat {cfg['n_iter']}%nat {lit}")
+            else:
+                cases.append(f"CProx {idlit(cid)} {cfg['n']}%nat {specs_lit(spec)} {cfg['order']}%nat {lit}")
+            meta.append((cfg["kind"], cfg, lit))
+
     failing, n_eval, broken = C.run_case_shards("C11", HEADER, "case", cases, shard=400)
     chk.checker_cmds.append("coqc (vm_compute) on generated build/cases/C11/*.v: Corr.C11.failing")
     chk.cov["traces_validated_against_impl"] = n_trace
@@ -615,11 +921,18 @@ def run(chk):
     chk.cov["runs"] = n_runs
     chk.cov["feasibility_evaluations"] = n_feas
     chk.cov["degenerate_runs_skipped"] = n_deg
+    chk.cov["admm_cases"] = n_admm
+    chk.cov["dispatch_cases"] = n_prox
+    chk.cov["timeouts_skipped"] = n_timeout
     chk.cov["exhaustive"] = False
     chk.cov["rule"] = (
         "table stream: orders 3-4 x 12 keywords x {scalar (truthy/falsy), empty list/dict, list and dict over EVERY subset of modes, "
         "short/long lists, falsy entries, out-of-range keys}; all 66 keyword pairs x 9 form pairs x sampled (thorough, order 3: all 64) pairs of mode subsets; "
-        "random triples; each compared exactly with Model/Constraints.v and judged by the Python transcription of the theorems. "
+        "random triples; negative dict keys (alone, disjoint, below -n, twice in one dict, aliasing another keyword's mode = the known-finding class); "
+        "each compared exactly with Model/Constraints.v and judged by the Python transcription of the theorems. "
+        "admm stream: tensorly.solvers.admm.admm on random well-conditioned normal equations with n_const 1/3/4, every order, inner budgets 1/2/4, "
+        "provenance of the returned primal variable vs the model + feasibility; dispatch stream: proximal_operator on signed matrices, the operator "
+        "identified by value against the directly called operator functions vs the model's dispatch. "
         "run stream: 8 hard kinds x {scalar, list, dict} x outer budgets {0,1,3} x inner budgets {1,3} over signed/integer/negative/positive/scaled data of order 3-4, "
         "ranks 1-3, svd/random/user/user(unit weights)/feasible-user inits, fixed modes, function and class entry points, mixed specifications and double constraints; "
         "feasibility is evaluated on the RETURNED factors only; a run is non-trivial if at least one constrained returned factor was judged; "
@@ -629,13 +942,20 @@ def run(chk):
     for i in sorted(failing):
         m = meta[i]
         if m[0] == "table":
-            chk.disagreement("corr:C11 table (Model/Constraints.v validate_table vs tensorly.tenalg.proximal.validate_constraints)",
+            chk.disagreement("corr:C11 table (Model/Constraints.v zvalidate_table vs tensorly.tenalg.proximal.validate_constraints)",
                              {"n": m[1], "spec": spec_to_json(m[2])})
+        elif m[0] == "admm":
+            chk.disagreement("corr:C11 admm (Model/Constraints.v admm skeleton vs provenance of the primal variable returned by tensorly.solvers.admm.admm)",
+                             {"cfg": m[1], "observed_provenance": m[2]})
+        elif m[0] == "prox":
+            chk.disagreement("corr:C11 dispatch (Model/Constraints.v proximal_operator vs the operator whose output tensorly.tenalg.proximal.proximal_operator returned)",
+                             {"cfg": m[1], "observed_operator": m[2]})
         else:
             chk.disagreement("corr:C11 trace (Model/Constraints.v constrained_cp skeleton vs provenance of the factors returned by constrained_parafac)",
                              {"cfg": m[1], "observed_provenance": m[2]})
     chk.assumptions = [
-        "dict keys are non-negative integers and parameters are bool/int/float (the value space of the model); negative keys (Python wrap-around) are outside",
+        "dict keys are Python ints (negative keys wrap around, as list indexing does) and parameters are bool/int/float (the value space of the model)",
+        "a request in which one dict names a mode twice ({2: a, -1: b} on order 3) is compared exactly with the model but not judged by the predicates (the statement demands nothing there)",
         "feasibility of an operator's output (range subset of the constraint set) is the subject of C12; here it is evaluated on every returned factor, not proved",
         "hard_sparsity / normalized_sparsity / normalize act on the whole factor matrix in the code (k non-zeros, unit Frobenius norm, max |entry| = 1 per factor); "
         "the predicates judge exactly that (it implies the column-wise bounds)",
@@ -644,7 +964,65 @@ def run(chk):
         "inner budget 0 raises in the code (x_split unbound) and is Err in the model; not exercised against the implementation"]
     chk.trusted += ["module-attribute interposition of proximal_operator (records order, validated constraint, output) for the provenance traces",
                     "numerical content of the ADMM step, MTTKRP, SVD and of the operators is abstract in the model (arbitrary functions)"]
-    return chk.finish()
+    return finish_with_local_known(chk, CLASSIFIERS)
+
+
+# ----------------------------------------------------------------------------- known findings
+def _finding_request(f):
+    inp = f.get("inputs") or {}
+    if "cfg" in inp:
+        inp = inp["cfg"]
+    try:
+        spec = spec_from_json(inp["spec"])
+        n = len(inp["shape"]) if "shape" in inp else int(inp["n"])
+    except Exception:
+        return None
+    return n, spec
+
+
+def clf_alias(f):
+    """the request is accepted although a NEGATIVE dict key names a mode that another keyword addresses"""
+    if f.get("predicate") not in ("C11_reject_iff_double", "C11_decomposition_rejects_double"):
+        return False
+    if "valid request rejected" in str(f.get("message")):      # a valid request that was rejected is not this class
+        return False
+    r = _finding_request(f)
+    return bool(r) and alias_by_negative_key(*r)
+
+
+CLASSIFIERS = {"negative_dict_key_names_a_mode_another_keyword_addresses": clf_alias}
+
+
+def finish_with_local_known(chk, classifiers):
+    """common.Check.finish classifies against /verif/known_findings.json, which the coordinator regenerates from
+    known_findings.d/*.json.  Until an entry of known_findings.d/C11.json has been merged there, it is applied here with the
+    same rule (entry point + classifier) and the same output line."""
+    try:
+        local = json.load(open(os.path.join(C.VERIF, "known_findings.d", "C11.json"))).get("findings", [])
+    except Exception:
+        local = []
+    merged = {k.get("id") for k in C.load_known("C11")}
+    missing = [k for k in local if k.get("id") not in merged]
+    if missing:
+        keep, hits = [], {}
+        for f in chk.findings:
+            kid = None
+            for k in missing:
+                clf = classifiers.get(k.get("classifier"))
+                if k.get("entry_point") == f["entry_point"] and clf is not None and clf(f):
+                    kid = k["id"]; break
+            if kid:
+                hits.setdefault(kid, f)
+            else:
+                keep.append(f)
+        chk.findings = keep
+        for kid, f in hits.items():
+            k = [k for k in missing if k["id"] == kid][0]
+            print(f"KNOWN-FINDING: property=C11 {k['what']} [{kid}] e.g. {json.dumps(C.jsonable(f['inputs']))[:200]}")
+        chk.cov["known_findings_hit_local"] = sorted(hits)
+        if hits:
+            chk.notes.append("known findings of known_findings.d/C11.json not yet merged into known_findings.json were classified by harness/props/C11.py: " + ", ".join(sorted(hits)))
+    return chk.finish(classifiers)
 
 
 def replay(payload):
@@ -655,6 +1033,15 @@ def replay(payload):
     inp = payload["inputs"]
     if "cfg" in inp:
         inp = inp["cfg"]
+    if inp.get("kind") == "admm":
+        rec = Recorder()
+        _, fails, _ = run_admm(inp, rec)
+        print("replay admm:", json.dumps(inp)[:300], "->", fails or "holds")
+        return 1 if fails else 0
+    if inp.get("kind") == "prox":
+        _, fails = run_prox(inp)
+        print("replay proximal_operator:", json.dumps(inp)[:300], "->", fails or "holds")
+        return 1 if fails else 0
     if "shape" in inp:
         res = run_cfg(inp, None)
         fails, _ = run_predicates(inp, res)
